@@ -64,6 +64,13 @@ type LockMon struct {
 	sites    map[string]int
 	wantSites bool
 	clients  map[int64]int
+	// directed schedules: park one goroutine at its n-th abort
+	gateGid   int64
+	gateN     int
+	gateCnt   int
+	gateHit   chan struct{}
+	gateGo    chan struct{}
+	gatePending bool
 }
 
 type retryState struct {
@@ -287,6 +294,22 @@ func hookEvent(ev int, t interface{}, inum uint64) {
 			delete(m.txns, t)
 		}
 	}
+	var park chan struct{}
+	// the abort event precedes the release of the locks: park at the Begin
+	// that follows the n-th abort (the locks are free then and the request
+	// is about to lock again in order)
+	if m.gateGo != nil && ts.gid == m.gateGid {
+		if ev == vh.EvAbort {
+			m.gateCnt++
+			if m.gateCnt == m.gateN {
+				m.gatePending = true
+			}
+		} else if ev == vh.EvBegin && m.gatePending {
+			m.gatePending = false
+			park = m.gateGo
+			close(m.gateHit)
+		}
+	}
 	dl := m.deadlock
 	var y uint64
 	if doYield && m.yieldSeed != 0 {
@@ -296,6 +319,9 @@ func hookEvent(ev int, t interface{}, inum uint64) {
 	m.mu.Unlock()
 	if dl != "" {
 		reportDeadlock(dl)
+	}
+	if park != nil {
+		<-park // released by the director once its script has run
 	}
 	if y != 0 {
 		switch y % 16 {
@@ -427,4 +453,27 @@ func (m *LockMon) NoteRPC() {
 		delete(m.retry, g)
 	}
 	m.mu.Unlock()
+}
+
+// ArmGate parks the calling goroutine at its n-th transaction abort until
+// OpenGate is called (directed exploration of the abort-and-relock windows).
+// It returns a channel that is closed when the goroutine is parked.
+func (m *LockMon) ArmGate(n int) chan struct{} {
+	g := goid()
+	m.mu.Lock()
+	defer m.mu.Unlock()
+	m.gateGid, m.gateN, m.gateCnt, m.gatePending = g, n, 0, false
+	m.gateHit = make(chan struct{})
+	m.gateGo = make(chan struct{})
+	return m.gateHit
+}
+
+func (m *LockMon) OpenGate() {
+	m.mu.Lock()
+	g := m.gateGo
+	m.gateGo = nil
+	m.mu.Unlock()
+	if g != nil {
+		close(g)
+	}
 }
